@@ -277,6 +277,7 @@ func checkC02(c *Check) {
 
 	// ---- R8 every record read from the store in a loop is decoded into its own variable
 	c.decodeTargetRule("R8", []string{"x/escrow/keeper"})
+	c.escrowExportComplete("R8")
 
 	// ---- R5 SettledAt
 	nset := 0
